@@ -62,10 +62,11 @@ def const_of(term):
 # values
 # ------------------------------------------------------------------------------------------------------------------
 class Cell:
-    __slots__ = ("val",)
+    __slots__ = ("val", "len_sym")
 
     def __init__(self, val=None):
         self.val = val
+        self.len_sym = None
 
 
 class Leaf:
@@ -621,11 +622,25 @@ class Executor:
         if m:
             if dest_ty and is_scalar(dest_ty):
                 nm = "len" if m.group(1) in ("PtrMetadata", "Len") else m.group(1)
+                if nm == "len":
+                    # the length of one slice object is one symbol: repeated reads through the same reference agree
+                    mm = re.match(r"^\w+\((?:copy|move) (.*)\)$", t)
+                    try:
+                        tgt = self.read_place(frame, mm.group(1)) if mm else None
+                    except Unsupported:
+                        tgt = None
+                    cell = tgt.cell if isinstance(tgt, Ref) else None
+                    if cell is not None:
+                        if getattr(cell, "len_sym", None) is None:
+                            cell.len_sym = self.ctx.sym(self.ctx.fresh(nm), dest_ty)
+                        return clone(cell.len_sym)
                 return self.ctx.sym(self.ctx.fresh(nm), dest_ty)
             raise Unsupported("rvalue: " + t)
         # references
         m = re.match(r"^&(?:raw (?:const|mut) )?(mut )?(.*)$", t)
         if m and not t.startswith("&&"):
+            if dest_ty and "[" in m.group(2):
+                self._elem_hint = re.sub(r"^&(?:'\w+ )?(?:mut )?", "", dest_ty.strip())
             cell = self.place_cell(frame, self.parse_place(m.group(2)))
             if cell.val is None:
                 raise Unsupported("reference to uninitialised place " + t)
